@@ -703,7 +703,7 @@ int main(int argc, char** argv) {
           runSet(c, s, si, s[0].n >= 7 ? 3 : 4);
           if (si.valid && idx % 100003 == 0) c.sample(setStr(s));
         },
-        CN, level >= 2 ? 26 : 23);
+        CN, level >= 2 ? 25 : 23);
   }
 
   // ---------- phases hole1 / holes2: contours with holes (and islands inside holes)
@@ -765,12 +765,14 @@ int main(int argc, char** argv) {
         if (!thorough && (holes1[a].n > 3 || holes1[b].n > 3 || a > b)) continue;
         P tp;
         int ct = contact(holes1[a], holes1[b], tp);
-        if (ct == 2 || (ct == 1 && !thorough)) continue;  // thorough: holes touching in one point as well
+        // thorough: two triangular holes touching in one point as well
+        if (ct == 2 || (ct == 1 && (!thorough || holes1[a].n > 3 || holes1[b].n > 3))) continue;
         P pa = holes1[a].v[0] == tp && ct ? holes1[a].v[1] : holes1[a].v[0];
         P pb = holes1[b].v[0] == tp && ct ? holes1[b].v[1] : holes1[b].v[0];
         if (strictlyInside(holes1[a], pb) || strictlyInside(holes1[b], pa)) continue;
+        if (ct == 1 && a > b) continue;  // touching pairs: unordered, outer contour first
         inners2.push_back({a, b, -1, 0});
-        if (thorough) inners2.push_back({a, b, -1, 1});
+        if (thorough && ct == 0) inners2.push_back({a, b, -1, 1});
       }
     // hole + island strictly inside it.  quick: every 6th island (one rotation of every other triangle)
     for (int a = 0; a < nh; ++a)
